@@ -11,5 +11,5 @@ STORE_OFFSET=$((n + 1 - K)) python3 /verif/tools/store_seed.py $P $K "$change" "
 python3 - <<PY
 import json
 p='/verif/seeded/$ID-$((n+1))/meta.json'
-m=json.load(open(p)); m['round']=5; json.dump(m,open(p,'w'),indent=1)
+m=json.load(open(p)); m['round']=int(__import__('os').environ.get('SEED_ROUND','6')); json.dump(m,open(p,'w'),indent=1)
 PY
